@@ -8,7 +8,7 @@ WT=$(mktemp -d /tmp/sv-XXXXXX)
 git -C /repo worktree add --detach "$WT/wt" HEAD >/dev/null 2>&1 || { echo "worktree failed"; exit 2; }
 cleanup() { git -C /repo worktree remove --force "$WT/wt" >/dev/null 2>&1; rm -rf "$WT"; }
 cd "$WT/wt"
-DEMO=$(ls "$D"/demo.py "$D"/demo.c 2>/dev/null | head -1)
+DEMO="$D/demo.py"; [ -f "$DEMO" ] || DEMO="$D/demo.c"
 rundemo() {
   if [ "${DEMO##*.}" = "py" ]; then ( cd "$WT/wt" && PYTHONPATH="$WT/wt" timeout 900 /venv/bin/python "$DEMO" ) > "$WT/demo.$1.log" 2>&1; echo $?
   else
